@@ -206,7 +206,15 @@ impl<'tcx> Cx<'tcx> {
                 }
             } else {
                 // non-scalar: evaluated display if cheap
-                let disp = match c.const_.eval(self.tcx, env, c.span) {
+                let evald = c.const_.eval(self.tcx, env, c.span);
+                if let Ok(mir::ConstValue::Scalar(mir::interpret::Scalar::Ptr(ptr, _))) = evald {
+                    // reference to a static item: name it
+                    let aid = ptr.provenance.alloc_id();
+                    if let Some(mir::interpret::GlobalAlloc::Static(sdid)) = self.tcx.try_get_global_alloc(aid) {
+                        fields.push(("static", jstr(&self.path(sdid))));
+                    }
+                }
+                let disp = match evald {
                     Ok(val) => with_no_trimmed_paths!(format!("{}", mir::Const::Val(val, cty))),
                     Err(_) => with_no_trimmed_paths!(format!("{}", c.const_)),
                 };
@@ -767,10 +775,17 @@ impl Callbacks for Facts {
                             Err(_) => None,
                         }
                     };
+                    // statics: dump the initializer body so that rules can read its value
+                    let init = if matches!(kind, DefKind::Static { .. }) {
+                        Some(cx.body(ldid, tcx.mir_for_ctfe(did)))
+                    } else {
+                        None
+                    };
                     consts.push(jobj(&[
                         ("path", jstr(&cx.path(did))),
                         ("ty", jstr(&cx.ty(cty))),
                         ("val", jopt(val.map(|v| jstr(&v)))),
+                        ("init", jopt(init)),
                         ("sp", cx.span(tcx.def_span(did))),
                     ]));
                 }
